@@ -36,7 +36,7 @@ pub fn gen_requests(rng: &mut Rng, n: u64, out: &mut Out) -> Vec<String> {
         // thread counts: mostly 2..8, the thorough tier (n large) also draws up to 24
         let big = n > 40 && rng.chance(1, 6);
         let nt = if big { rng.range(9, 24) } else { *rng.pick(&[2u64, 2, 3, 4, 4, 6, 8]) };
-        let iters = if nt > 8 { rng.range(1, 2) } else if nt > 4 { rng.range(1, 3) } else { rng.range(2, 5) };
+        let iters = if nt > 8 { 1 } else if nt > 4 { rng.range(1, 2) } else if nt > 2 { rng.range(1, 3) } else { rng.range(2, 5) };
         let seed = rng.below(1000);
         let pin = if rng.chance(1, 4) { rng.below(4) as i64 } else { -1 };
         let delay = *rng.pick(&[0u64, 0, 200, 2000, 20000]);
@@ -157,7 +157,8 @@ fn strip_tids(out: &[u8]) -> String {
     String::from_utf8_lossy(out).lines().map(|l| l.split(' ').filter(|w| !w.starts_with("tid=")).collect::<Vec<_>>().join(" ")).collect::<Vec<_>>().join("\n")
 }
 
-fn table_of(dbg: &Debugger, names: &mut Names) -> Result<String, String> {
+/// (table text `tid:number:status,…` sorted by renamed tid, listed tids, tids marked running) from ONE `thread_state()` call
+fn table_of(dbg: &Debugger, names: &mut Names) -> Result<(String, BTreeSet<i32>, Vec<i32>), String> {
     let ts = dbg.thread_state().map_err(|e| format!("{e}"))?;
     let mut rows: Vec<(usize, u32, String)> = ts.iter().map(|s| {
         let st = format!("{:?}", s.thread.status);
@@ -167,7 +168,9 @@ fn table_of(dbg: &Debugger, names: &mut Names) -> Result<String, String> {
         (names.get(s.thread.pid.as_raw()), s.thread.number, st)
     }).collect();
     rows.sort();
-    Ok(enc_list(&rows, |r| format!("{}:{}:{}", r.0, r.1, r.2)))
+    let listed = ts.iter().map(|t| t.thread.pid.as_raw()).collect();
+    let running = ts.iter().filter(|t| !t.thread.is_stopped()).map(|t| t.thread.pid.as_raw()).collect();
+    Ok((enc_list(&rows, |r| format!("{}:{}:{}", r.0, r.1, r.2)), listed, running))
 }
 
 struct Params { n: u64, iters: u64, seed: u64, pin: i64, delay: u64, mode: String }
@@ -245,7 +248,7 @@ fn session(lines: &[String], native: &str, emit: &mut dyn FnMut(String)) {
             && elf.fn_of(addr - base).is_some() { bps.insert(addr - base); }
     }
     let first = stop_text(&r, &mut names, base);
-    let tbl = match table_of(&s.dbg, &mut names) { Ok(t) => t, Err(e) => { pair(emit, "C09 init - 0 0 - 0".into(), format!("thread-state-failed {e}").replace(' ', "_")); return; } };
+    let tbl = match table_of(&s.dbg, &mut names) { Ok(t) => t.0, Err(e) => { pair(emit, "C09 init - 0 0 - 0".into(), format!("thread-state-failed {e}").replace(' ', "_")); return; } };
     let next_num = tbl.split(',').filter_map(|r| r.split(':').nth(1).and_then(|n| n.parse::<u64>().ok())).max().map(|m| m + 1).unwrap_or(0);
     let pc0 = first.split(' ').nth(2).unwrap_or("0").to_string();
     // `init`: the state after `start` returned (stop at `ready` in the only thread) — the model starts here
@@ -269,14 +272,12 @@ fn session(lines: &[String], native: &str, emit: &mut dyn FnMut(String)) {
             _ => {}
         }
         stops += 1;
-        let tbl = table_of(&s.dbg, &mut names).unwrap_or_else(|e| format!("thread-state-failed:{e}").replace(' ', "_"));
+        let (tbl, listed, marked_running) = table_of(&s.dbg, &mut names).unwrap_or_else(|e| (format!("thread-state-failed:{e}").replace(' ', "_"), BTreeSet::new(), vec![]));
         pair(emit, "C09 ret".into(), format!("{ans} {tbl}"));
         if let Ok(StopReason::Breakpoint(p, pc)) = &r && let Some(f) = elf.fn_of(u64::from(*pc).wrapping_sub(base)) {
             *reported.entry((p.as_raw(), f)).or_insert(0) += 1;
         }
         // ---- oracle: every task of the process is in tracing stop; the thread list is the kernel's
-        let listed: BTreeSet<i32> = s.dbg.thread_state().map(|v| v.iter().map(|t| t.thread.pid.as_raw()).collect()).unwrap_or_default();
-        let marked_running: Vec<i32> = s.dbg.thread_state().map(|v| v.iter().filter(|t| !t.thread.is_stopped()).map(|t| t.thread.pid.as_raw()).collect()).unwrap_or_default();
         let t0 = std::time::Instant::now();
         let mut tasks = proc_tasks(pid);
         // a task that was let go from its exit stop needs a moment to die: wait (bounded) for transient states only
@@ -345,7 +346,20 @@ pub fn exec(req: &[String], out: &mut Out, tmpdir: &std::path::Path) {
         }
     }
     let par = par_default().min(4);
-    let results = run_sessions(&sessions, tmpdir, "c09", par, session_timeout().max(40), |s, emit| session(&s.0, &s.1, emit));
+    // the watchdog is wall-clock: stretch it with the machine's load; a session that still times out is run once more,
+    // alone, with twice the limit (a hang is never dropped: a second timeout is reported)
+    let load = std::fs::read_to_string("/proc/loadavg").ok().and_then(|s| s.split(' ').next().and_then(|v| v.parse::<f64>().ok())).unwrap_or(0.0);
+    let cores = std::thread::available_parallelism().map(|n| n.get()).unwrap_or(1) as f64;
+    let factor = ((load / cores).ceil() as u64).clamp(1, 6);
+    let limit = session_timeout().max(40) * factor;
+    let mut results = run_sessions(&sessions, tmpdir, "c09", par, limit, |s, emit| session(&s.0, &s.1, emit));
+    for i in 0..sessions.len() {
+        if results[i].1 == "timeout" && std::env::var("VERIF_NO_RETRY").is_err() {
+            out.count("session_retried_after_timeout", 1);
+            let again = run_sessions(&sessions[i..i + 1], tmpdir, "c09r", 1, limit * 2, |s, emit| session(&s.0, &s.1, emit));
+            results[i] = again.into_iter().next().unwrap();
+        }
+    }
     for (i, ((s, _), (lines, how))) in sessions.iter().zip(results).enumerate() {
         let mut npairs = 0; let mut nev = 0u64; let mut nstops = 0u64;
         let mut sample = vec![];
